@@ -77,6 +77,8 @@ func c05Ops() []Op {
 		// pauses that run past the hour: the value gets an hour and a minute part and is extended again
 		Op{Kind: "pause", Ticks: []int{3600, 3661, 3725}},
 		Op{Kind: "pause", Extend: true, Ticks: []int{3661, 3725, 7260}},
+		// a number beyond the representable range (known finding: klog panics on it; it must at least not report success)
+		Op{Kind: "track", Entry: "99999999999999999999h"},
 	)
 	return ops
 }
@@ -377,6 +379,9 @@ func c05Targets(c *fw.Ctx, only int) {
 			os.WriteFile(path, []byte(before), 0644)
 			r0 := RunOp(home, path, o, c04Env)
 			after0 := clidrv.ReadFile(path)
+			if r0.Panicked {
+				continue // reported (once) by the file x command family
+			}
 			os.WriteFile(path, []byte(before), 0644)
 			args := o.Args(path)
 			args = args[:len(args)-1] // no file argument: the default bookmark is the target
